@@ -6,14 +6,18 @@ import re
 
 from .base import Result, V
 
-MODULES = ["TickitModel.Props.C18", "TickitModel.Props.C18Regex"]
+MODULES = ["TickitModel.Props.C18", "TickitModel.Props.C18Regex", "TickitModel.Props.C18Http"]
 THEOREMS = ["handle_first_match", "handle_unknown_iff", "parse_undecodable", "parse_bytes", "parse_text", "pyStrip_spec",
             "tcpChunk_matched", "tcpChunk_unknown", "tcpConn_append", "tcpConn_counts",
-            "accepts_iff_matches", "opt_matches", "plus_matches", "lit_matches"]
+            "accepts_iff_matches", "opt_matches", "plus_matches", "lit_matches",
+            "Http.firstMatch_spec", "Http.firstMatch_none_iff", "Http.resolveFirst_createRouteDefinitions", "Http.httpRequest_matched", "Http.httpRequest_unmatched",
+            "Http.httpRequest_counts", "Http.httpRequest_interrupt_iff", "Http.httpRequest_interrupt_between", "Http.httpRequest_unmatched_quiet", "Http.httpRequestWith_shape",
+            "Http.route_calls_own_handler", "Http.httpRequest_handler_is_matched", "Http.httpRequest_perm", "Http.overlaps_exact", "Http.httpRequestIdx_perm",
+            "Http.getEndpoints_perm", "Http.getEndpoints_names_irrelevant", "Http.httpRequestIdx_matched", "Http.httpRequestIdx_unmatched", "Http.httpRequestIdx_eq_httpRequest"]
 ANCHORS = ["src/tickit/adapters/tcp.py", "src/tickit/adapters/specifications/regex_command.py", "src/tickit/adapters/io/tcp_io.py",
            "src/tickit/adapters/io/http_io.py", "src/tickit/adapters/specifications/http_endpoint.py", "src/tickit/adapters/utils.py",
            "src/tickit/utils/byte_format.py"]
-TECHNIQUE = "Lean 4 theorems (first matching command in registration order, undecodable bytes fall through, interrupt after handler iff declared, each non-empty reply written once in order in the byte format, unknown reply otherwise) + exhaustive/generated differential run of CommandAdapter / RegexCommand / TcpIo handle function / HttpIo wrapper against the model"
+TECHNIQUE = "Lean 4 theorems (first matching command in registration order, undecodable bytes fall through, interrupt after handler iff declared, each non-empty reply written once in order in the byte format, unknown reply otherwise) + exhaustive/generated differential run of CommandAdapter / RegexCommand / TcpIo handle function against the model; HTTP: theorems over an endpoint-table model (effect of the matched endpoint exactly once, interrupt iff declared and between effect and reply, each route calls its own handler, nothing happens for an unmatched request - for every table and request, for any sound and complete resolver) + differential run of generated HttpAdapter subclasses through get_endpoints / HttpIo.create_route_definitions / aiohttp's router against the model"
 LEVEL_TEXT = ("Theorems over the command-dispatch model for every byte string and every ordered command list: the command invoked is the first whose "
               "pattern matches the whole message after that command's declared decoding (bytes: raw; text: UTF-8 decode + strip, with Python's "
               "whitespace table; undecodable input matches no text command and falls through), invoked once with the captured groups; otherwise no "
@@ -24,7 +28,7 @@ LEVEL_TEXT = ("Theorems over the command-dispatch model for every byte string an
               "groups, pydantic and aiohttp remain parameters. Tie to the "
               "code: all byte strings of length <= 1 (quick) / <= 2 (thorough) and generated/mutated messages (invalid UTF-8, partial and over-long "
               "matches, surrounding whitespace incl. non-ASCII) against generated command sets with mixed bytes/text commands and the shipped example "
-              "adapters, through CommandAdapter.handle_message and the TcpIo handle function with fake streams; HttpIo's interrupt wrapper is run directly.")
+              "adapters, through CommandAdapter.handle_message and the TcpIo handle function with fake streams; HTTP (Props/C18Http, model Core/Http: endpoint tables with literal and {name} segments, the post-hoc interrupt wrapper, aiohttp's indexed resolution and registration-order resolution, 404/405, refused tables): for every table and request the trace is [effect of the matched endpoint's own handler] ++ [interrupt iff declared] ++ [reply], nothing at all for an unmatched request, and permuting non-overlapping routes changes nothing; aiohttp's resolver is a parameter (any sound and complete resolver), its concrete algorithm is modelled by httpRequestIdx and compared on every run: generated HttpAdapter subclasses (1-6 endpoints, 0-5 interrupting, overlapping templates, duplicates) go through the real get_endpoints, HttpIo.create_route_definitions and a real aiohttp Application router (no network), and the observed effect / interrupt / reply events must equal the model's.")
 LEVEL_NOTE = "Trusts: Lean kernel; hand-written dispatch model; Python's re/codecs as the pattern/decoding oracle for the harness side; Lean's String.fromUTF8? as the UTF-8 validator of the model (differences from CPython's decoder would show up as divergences)."
 ASSUMPTIONS = ["commands are RegexCommand instances registered on adapter methods", "a connection's reply tasks write without blocking (fake writer)"]
 
@@ -278,6 +282,114 @@ def regex_part(rng, n, drv, res):
             res.diverge(f"regex {pat!r} on {strs[k]!r}: re.fullmatch {py[k]} Lean matcher {rep[k]}", {"pattern": pat, "input": strs[k]})
 
 
+
+def http_model_diff(rng, n, drv, res, loop):
+    from aiohttp import web
+    from aiohttp.test_utils import make_mocked_request
+    from tickit.adapters.http import HttpAdapter
+    from tickit.adapters.io.http_io import HttpIo
+    from tickit.adapters.specifications import HttpEndpoint
+    segs_t = ["a", "b", "a", "{x}", "{y}", "", "{x}"]
+    segs_p = ["a", "b", "c", ""]
+    meths = ["GET", "PUT", "POST", "HEAD"]
+    pstr = lambda segs: "/" if not segs else "/" + "/".join(segs)   # noqa: E731
+    cases, reals = [], []
+    for _ in range(n):
+        routes = []
+        for _ in range(rng.randint(1, 5)):
+            t = [rng.choice(segs_t) for _ in range(rng.randint(0, 3))]
+            if t and t[0] == "":
+                t[0] = "a"
+            routes.append((rng.choice(meths), t, rng.random() < 0.5))
+        if rng.random() < 0.1:
+            routes.append((rng.choice(meths), routes[-1][1], rng.random() < 0.5))
+        if rng.random() < 0.7:
+            # mostly tables that aiohttp accepts: one route per (method, template)
+            seen_mt, uniq = set(), []
+            for m, t, intr in routes:
+                ms = {"GET", "HEAD"} if m in ("GET", "HEAD") else {m}
+                if not any((x, tuple(t)) in seen_mt for x in ms):
+                    uniq.append((m, t, intr))
+                    seen_mt |= {(x, tuple(t)) for x in ms}
+            routes = uniq
+        reqs = []
+        for _ in range(4):
+            pth = [rng.choice(segs_p) for _ in range(rng.randint(0, 3))]
+            if pth and pth[0] == "":
+                pth[0] = "a"
+            m = rng.choice(meths)
+            if rng.random() < 0.85:
+                rm, rt, _ = rng.choice(routes)
+                pth = [(rng.choice(["a", "b", "c"]) if sg.startswith("{") else sg) for sg in rt]
+                if rng.random() < 0.75:
+                    m = rm
+            reqs.append((m, pth))
+        log = []
+        ns = {}
+        for i, (m, t, intr) in enumerate(routes):
+            def mk(i=i, m=m, t=t, intr=intr):
+                @HttpEndpoint(pstr(t), m, intr)
+                async def method(self, request):
+                    log.append(["effect", i, sorted([k, v] for k, v in dict(request.match_info).items())])
+                    return ("reply", i)
+                return method
+            ns[f"e{i:02d}"] = mk()     # getmembers order = registration order = index order
+        adapter = type("GenHttpAdapter2", (HttpAdapter,), ns)()
+
+        async def raise_interrupt():
+            log.append(["interrupt"])
+        defs = list(HttpIo().create_route_definitions(adapter.get_endpoints(), raise_interrupt))
+        app = web.Application()
+        real = {"startsOk": True, "replies": []}
+        try:
+            app.add_routes(defs)
+        except Exception:   # noqa: BLE001  aiohttp refuses the table (e.g. the same method twice on one resource)
+            real["startsOk"] = False
+
+        async def one(m, pth):
+            mi = await app.router.resolve(make_mocked_request(m, pstr(pth)))
+            if mi.http_exception is not None:
+                return [["error", mi.http_exception.status]]
+            del log[:]
+            out = await mi.handler(make_mocked_request(m, pstr(pth), match_info=mi))
+            return [list(e) for e in log] + [[out[0], out[1]]]
+        if real["startsOk"]:
+            for m, pth in reqs:
+                real["replies"].append(loop.run_until_complete(one(m, pth)))
+        seg = lambda sg: ["var", sg[1:-1]] if sg.startswith("{") else ["lit", sg]   # noqa: E731
+        cases.append({"op": "http", "endpoints": [{"path": [seg(x) for x in t], "method": m, "interrupt": intr, "handler": i} for i, (m, t, intr) in enumerate(routes)],
+                      "requests": [{"method": m, "path": pth} for m, pth in reqs]})
+        reals.append(real)
+    for c, real, rep in zip(cases, reals, drv.eval(cases)):
+        res.case(("http-model", str(c)))
+        res.count("http-table-accepted" if real["startsOk"] else "http-table-refused-by-aiohttp")
+        if real["startsOk"] != rep["startsOk"]:
+            res.diverge(f"http: aiohttp {'accepts' if real['startsOk'] else 'refuses'} the route table, model says startsOk={rep['startsOk']}", c)
+            continue
+        if not real["startsOk"]:
+            continue
+        eps = c["endpoints"]
+        for rq, got, mod in zip(c["requests"], real["replies"], rep["replies"]):
+            canon = [[e[0], e[1], sorted(e[2])] if e[0] == "effect" else e for e in mod["idx"]]
+            res.count("http-" + (got[0][0] if got and got[0][0] == "error" else ("interrupting" if ["interrupt"] in got else "plain")))
+            if got != canon:
+                res.diverge(f"http request {rq}: impl {got} model {canon}", c)
+            # the property, stated directly: effect of exactly one endpoint whose template matches, once; interrupt iff
+            # that endpoint is declared interrupting, after the effect and before the reply; otherwise nothing happens
+            effs = [e for e in got if e[0] == "effect"]
+            ints = [k for k, e in enumerate(got) if e == ["interrupt"]]
+            if got and got[0][0] == "error":
+                if len(got) != 1:
+                    res.violate(V("http-interrupt-wrong", f"{rq}: unmatched request produced {got}", site="HttpIo"), {"http": c})
+                continue
+            ok = len(effs) == 1 and got[0][0] == "effect" and got[-1] == ["reply", effs[0][1]]
+            if ok:
+                ep = eps[effs[0][1]]
+                ok = (len(ints) == (1 if ep["interrupt"] else 0)) and (not ints or ints == [1]) and len(got) == 2 + len(ints)
+            if not ok:
+                res.violate(V("http-interrupt-wrong", f"{rq}: happened {got} (endpoints {[(e['method'], e['path'], e['interrupt']) for e in eps]})", site="HttpIo",
+                              several_interrupting=sum(1 for e in eps if e['interrupt']) > 1), {"http": c})
+
 def run(tier, seed, drv):
     res = Result()
     rng = random.Random(seed)
@@ -445,6 +557,15 @@ def run(tier, seed, drv):
                                       several_interrupting=sum(shape) > 1), {"http": shape})
     except Exception as e:
         res.violate(V("handler-raised", f"http part raised {type(e).__name__}:{e}", site=type(e).__name__), {"http": True})
+    # HTTP, whole path against the Lean model (Core/Http, Props/C18Http): generated endpoint tables (literal and
+    # {name} segments, GET/PUT/POST/HEAD, interrupting or not, overlapping templates, duplicates) declared on a real
+    # HttpAdapter subclass, discovered by get_endpoints, wrapped by HttpIo.create_route_definitions, registered on a
+    # real aiohttp Application; each request is resolved by aiohttp's own router and the resolved handler is awaited.
+    try:
+        http_model_diff(random.Random(seed + 177), 150 if tier == "quick" else 2500, drv, res, loop)
+    except Exception as e:
+        import traceback
+        res.violate(V("handler-raised", f"http model differential raised {type(e).__name__}:{e} {traceback.format_exc()[-300:]}", site=type(e).__name__), {"http": True})
     loop.close()
     asyncio.set_event_loop(None)
     res.exhaustive = True
